@@ -75,6 +75,22 @@ macro_rules! dim_checks {
                 }
                 ensure_eq!(a.trace(), tr, "trace", "trace()");
                 ensure_eq!(a.rm(), t, "readback", "field read-back");
+                // the array spellings of the same constructor: element (c, r) is the r-th entry of the c-th inner array
+                {
+                    let nested: [[S; $n]; $n] = std::array::from_fn(|c| std::array::from_fn(|r| t.e[c][r]));
+                    ensure_eq!($M::<S>::from(nested), a, "from-nested-array", "from([[..]; n]) vs new(..)");
+                    let back: [[S; $n]; $n] = a.into();
+                    ensure_eq!(back, nested, "into-nested-array", "Into<[[S; n]; n]>");
+                    let r: &$M<S> = (&nested).into();
+                    ensure_eq!(*r, a, "from-nested-array-ref", "<&M>::from(&[[..]; n])");
+                    let ar: &[[S; $n]; $n] = a.as_ref();
+                    ensure_eq!(*ar, nested, "as_ref-nested-array", "AsRef<[[S; n]; n]>");
+                    let flat: [S; $n * $n] = std::array::from_fn(|i| t.e[i / $n][i % $n]);
+                    let fr: &$M<S> = (&flat).into();
+                    ensure_eq!(*fr, a, "from-flat-array-ref", "<&M>::from(&[S; n*n]) is column-major");
+                    let af: &[S; $n * $n] = a.as_ref();
+                    ensure_eq!(*af, flat, "as_ref-flat-array", "AsRef<[S; n*n]> is column-major");
+                }
                 let (c, nt) = classify(&[&t]);
                 pass(c, nt)
             }
